@@ -457,8 +457,10 @@ func coveringDesign() *dg.Design {
 		{Name: "AU32", Base: dg.Prim("UInt32")},
 		{Name: "Box", Base: dg.Obj(dg.F("any", anyT), dg.F("list", dg.ArrayOf(dg.A(anyT))), dg.F("n", dg.Prim("Int")))},
 	}
+	d.Types = append(d.Types, coveringResponseTypes()...)
 	svc := &dg.Service{Name: "cov", BasePath: "/c"}
 	add := func(m *dg.Method) { svc.Methods = append(svc.Methods, m) }
+	coveringResponses(add)
 	rt1 := func(verb, p string) []dg.Route { return []dg.Route{{Verb: verb, Path: p}} }
 
 	// catch-all pairs: same literal prefix, different verbs, different wildcard names
@@ -565,6 +567,7 @@ func coveringFixed(prop string) []witnessCase {
 		cs = append(cs, witnessCase{Method: "ext", Payload: vO("pu", vU(1)), Result: vO("ok", vB(true), "ri", vI(minI64), "ru", vU(maxU64), "rhi", vI(minI64), "rhu", vU(maxU64))})
 		cs = append(cs, witnessCase{Method: "ext", Payload: vO("pu", vU(1)), Result: vO("ri", vI(maxI64), "rhi", vI(maxI64), "rhu", vU(0))})
 	}
+	cs = append(cs, coveringResponseCases(prop)...)
 	return cs
 }
 
